@@ -30,6 +30,7 @@ from . import c13_cfg as cfgk
 CPU_LIMIT = int(os.environ.get("VERIF_C13_STR_CPU", "3"))
 WALL_LIMIT = float(os.environ.get("VERIF_C13_STR_WALL", "90"))
 MAX_STRIP_CHARS = 30000
+_HANGS = 0
 
 WORDS = ["please", "note", "the", "new", "opening", "hours", "of", "our", "store", "in", "the", "city", "centre", "monday", "to", "friday",
          "from", "nine", "to", "five", "and", "on", "saturday", "until", "noon", "thank", "you", "for", "your", "patience", "we", "will",
@@ -481,7 +482,11 @@ def run_str(case, canon_ast):
         if vtext is not None:
             stages.append(("variant", lambda: _load(dirs["v"], root, canon_ast, logs["v"])))
         stages.append(("base_again", lambda: _load(dirs["b"], root, canon_ast, logs["b2"])))
-        res = cfgk.in_child_cpu([s[1] for s in stages], CPU_LIMIT, WALL_LIMIT)
+        global _HANGS
+        # (a worker that has already seen six loads run into the limit - a badly broken tree - goes on with 1 s: still 25 x a normal load)
+        res = cfgk.in_child_cpu([s[1] for s in stages], CPU_LIMIT if _HANGS < 6 else min(CPU_LIMIT, 1), WALL_LIMIT)
+        if any(r.get("outcome") == "timeout" for r in res):
+            _HANGS += 1
         for (n, _), r in zip(stages, res):
             obs[n] = r
         obs["calls"] = _read_log(logs["b"]) + _read_log(logs["v"])
